@@ -94,12 +94,17 @@ package kgo
 //@   ensures [empty-stays-empty] atcrit(r.l) == 0 ==> (!more && r.l == 0)
 //@   ensures [pop-count] atcrit(r.l) > 0 ==> (r.l == atcrit(r.l) - 1 && more == (r.l > 0))
 //@   ensures [peek-is-new-head] more ==> next == r.elems[r.head]
+//   a pusher parked on a full bounded ring is told about EVERY slot that frees up - also the last one (after which
+//   the worker stops and nobody else would wake it)
+//@   ensures [every-pop-of-a-bounded-ring-signals-the-pushers] (atcrit(r.l) > 0 && r.cond != nil) ==> reached($Signal0)
 //@   ensures [drops-exactly-the-oldest] atcrit(r.l) > 0 ==> forall i in 0..r.l :: r.elems[ringIdx(r.head, cap(r.elems), i)] == atcrit(r.elems[ringIdx(r.head, cap(r.elems), i + 1)])
 
 //@ func (r *ring[T]) die()
 //@   prop C30
 //@   nopanic
 //@   ensures [dead] r.dead && r.l == atcrit(r.l) && r.head == atcrit(r.head)
+//   every pusher parked on the (bounded) ring is woken so that each of them sees the ring dead and is rejected
+//@   ensures [all-parked-pushers-are-woken] r.cond != nil ==> reached($Broadcast0)
 
 // finishPromises peeks at the length under the lock (a test hook); it is under contract only so that its
 // critical section is checked against the monitor invariant like every other one.
